@@ -597,8 +597,8 @@ def appendNew {α} (errE : Err) (name : α → String) (acc : List α) : List α
 /-! ### default values after extension (fix C14-T15)
 
 `_default_value` retries a literal which is not a value of the un-extended type in the extended one, and
-`_extended_default_value` evaluates every default written in SDL AGAIN in the extended type (keeping the current
-value when that fails).  By name: the value over the merged definitions, else the value over the definitions. -/
+`_extended_default_value` evaluates every default written in SDL AGAIN in the extended type.  By name: the value
+over the merged definitions. -/
 
 /-- members of all extensions of `t`, appended in document order (the definition the extended type is built from) -/
 def mergeExt (exts : List TypeDef) (t : TypeDef) : TypeDef :=
@@ -661,12 +661,11 @@ def needsHidden (eX : Env) (hide : Option String) (lit : Lit) (ty : Ty) : Bool :
   | none => false
   | some h => ty.base == h || touches eX h coerceFuel lit ty
 
+/-- the value of a default literal after extension: its value in the extended types; a literal that is no longer a
+    value there (an extension added a required input field …) makes the document invalid (fix C11-H3-6).  Only a
+    default whose evaluation needs the input type in progress keeps its value over the un-extended types. -/
 def defaultValueX (eB eX : Env) (hide : Option String) (lit : Lit) (ty : Ty) : R J :=
-  if needsHidden eX hide lit ty then defaultValue eB lit ty
-  else match defaultValue eX lit ty with
-  | .ok v => .ok v
-  | .error (.internal c) => .error (.internal c)
-  | .error (.lib _) => defaultValue eB lit ty
+  if needsHidden eX hide lit ty then defaultValue eB lit ty else defaultValue eX lit ty
 
 def buildArgumentX (eB eX : Env) (hide : Option String) (a : InputValDef) : R ArgD := do
   checkRef eB a.type
